@@ -240,29 +240,32 @@ def handle (op : String) (a : Json) : Except String Json := do
           [if out.isEmpty then "no-bulks" else "bulks",
            if entries.any (fun en => match en with | .task s _ _ t => s.clients != t | _ => false) then "inside-parallel" else "own-element"]
   | "columns" =>
-    -- Worker.drive for one bulk task: the columns of a worker's allocation that contain the task, in column order
+    -- Worker.drive + AsyncIoAdapter.run for the leaf task `task`: the columns of a worker's allocation, each with ALL its
+    -- allocations of tasks that use the same bulk operation ([task id, client_index_in_task, task.clients, total_clients, global])
     let cfg ← getCfg a
     let corpora ← getCorpora a
     let o ← getOracle a
+    let t ← getNat a "task"
     let cs ← getArr a "columns"
     let cols ← cs.mapM fun col => do
       let rows ← getArr col "entries"
       let entries ← rows.mapM fun r => do
         let xs ← r.getArr?
         match xs.toList with
-        | [i, c, t, g] => do
-          let i ← i.getNat?; let c ← c.getNat?; let t ← t.getNat?; let g ← g.getNat?
-          pure (Alloc.Entry.task ⟨0, c, false, false⟩ i g t)
+        | [tid, i, c, tot, g] => do
+          let tid ← tid.getNat?; let i ← i.getNat?; let c ← c.getNat?; let tot ← tot.getNat?; let g ← g.getNat?
+          pure (Alloc.Entry.task ⟨tid, c, false, false⟩ i g tot)
         | _ => throw "bad entry"
       let calls ← getNatList col "calls"
-      pure (entries, calls)
-    match runColumns o cfg corpora cols with
+      pure (entries, fun (_ : Nat) => calls)
+    match runTaskColumns o cfg corpora t cols with
     | .error e => return err (errName e)
     | .ok outs =>
       return ok (arr (outs.map fun res => Json.mkObj [("out", arr (res.1.map fun cb => arr [toJson cb.1, bulkJson cb.2])),
                                                        ("stopped", arr (res.2.map toJson))]))
         [if cols.length > 1 then "several-columns" else "one-column",
-         if cols.any (fun col => col.1.any (fun en => match en with | .task s _ _ t => s.clients != t | _ => false)) then "inside-parallel" else "own-element"]
+         if cols.any (fun col => col.1.any (fun en => match en with | .task s _ _ _ => s.id != t | _ => false)) then "operation-shared-in-column" else "operation-not-shared",
+         if cols.any (fun col => col.1.any (fun en => match en with | .task s _ _ tot => s.clients != tot | _ => false)) then "inside-parallel" else "own-element"]
   | "table" =>
     let bs ← getBytes a "bytes"; let every ← getNat a "every"
     let r := prepareOffsetTable every bs
